@@ -486,7 +486,7 @@ def check_c13(exe, tier, seed, verdict):
     acc = validate_prefix_traces(exe, files, verdict, "C13")
     cov = {"states": r.distinct, "transitions": r.generated, "traces_validated_against_impl": n + acc + extra["n"],
            "evaluations": n + extra["n"] + es + sum(len(f["lines"]) for f in files), "distinct_nontrivial": nn + extra["nontrivial"],
-           "rule": "all conventional files of <= %d lines (pool of MC_Parser.tla) with exactly one malformed line (missing bracket, text after bracket, empty name, key text without delimiter where it cannot continue a value) at every position, and the same pool under PYTHON_STYLE=1 read through an option object; compared: code by name, econf_errLocation file+line, NULL out-pointer. The same malformed files as main / k-th drop-in of layered reads (%d tree cases). A file missing in every way (no such name, missing directory, a path component that is a plain file, name / path too long, link to nowhere) gives ECONF_NOFILE from both single-file entry points, and a layer that is a plain file is skipped by econf_readConfig / econf_readDirs while a malformed drop-in of another layer keeps its code, path and line. econf_errString for codes 0..24 and out-of-range against distinguishing words. %d random files with an injected malformed line as prefix traces. non-trivial = malformed line not first / file not the first consulted." % (maxl, extra["n"], len(files)),
+           "rule": "all conventional files of <= %d lines (pool of MC_Parser.tla) with exactly one malformed line (missing bracket, text after bracket, empty name, key text without delimiter where it cannot continue a value) at every position, and the same pool under PYTHON_STYLE=1 read through an option object; compared: code by name, econf_errLocation file+line, NULL out-pointer. The same malformed files as main / k-th drop-in of layered reads (%d tree cases; merged-result and history entry points: code, location, nothing handed back). A file missing in every way (no such name, missing directory, a path component that is a plain file, name / path too long, link to nowhere) gives ECONF_NOFILE from both single-file entry points, and a layer that is a plain file is skipped by econf_readConfig / econf_readDirs while a malformed drop-in of another layer keeps its code, path and line. econf_errString for codes 0..24 and out-of-range against distinguishing words. %d random files with an injected malformed line as prefix traces. non-trivial = malformed line not first / file not the first consulted." % (maxl, extra["n"], len(files)),
            "samples": samples + extra["samples"][:1], "exhaustive": sample == 1, "errstring_codes_checked": es,
            "trusted_base": ["TLC 1.8.0", "gcc ASan/UBSan", "drv.c"]}
     return cov, BASE_ASSUME, "model_checking"
